@@ -286,51 +286,99 @@ def install_find_hooks(ctx, abs_):
     return valid
 
 
+def _container_exprs(ctx, fn: FuncInfo, e: ast.expr, depth: int = 0) -> Optional[List[ast.expr]]:
+    """The FileContents containers, in order, that iterating `e` goes through: a literal list / tuple of containers
+    (iterated by a nested loop), `chain(a, b, ...)`, a local holding one of these, or a call of a package function /
+    generator that returns / yields exactly that (`yield from fct.x` statements, possibly produced by unrolling a loop over a
+    constant tuple of field names)."""
+    prog = ctx.prog
+    if depth > 4:
+        return None
+    if isinstance(e, ast.Name):
+        defs = [a.value for a in iter_own_nodes(fn.node) if isinstance(a, ast.Assign) and len(a.targets) == 1
+                and isinstance(a.targets[0], ast.Name) and a.targets[0].id == e.id]
+        return _container_exprs(ctx, fn, defs[0], depth + 1) if len(defs) == 1 else None
+    if isinstance(e, (ast.List, ast.Tuple)):
+        parts: List[ast.expr] = []
+        for x in e.elts:
+            if isinstance(x, ast.Attribute):
+                parts.append(x)
+            else:
+                return None
+        return parts
+    if isinstance(e, ast.BinOp) and isinstance(e.op, ast.Add):
+        a, b = _container_exprs(ctx, fn, e.left, depth + 1), _container_exprs(ctx, fn, e.right, depth + 1)
+        if a is None:
+            return None
+        return a + (b if b is not None else [e.right])
+    if isinstance(e, ast.Call):
+        nm = getattr(e.func, 'id', getattr(e.func, 'attr', ''))
+        if nm == 'chain' and e.args and all(isinstance(a, ast.Attribute) for a in e.args):
+            return list(e.args)
+        sym = prog.resolve_expr_symbol(fn.module, e.func) if isinstance(e.func, (ast.Name, ast.Attribute)) else None
+        if isinstance(sym, FuncInfo) and len(e.args) == 1 and isinstance(e.args[0], ast.Name):
+            g = sym
+            gp = g.params()[0].arg if g.params() else None
+            out: List[ast.expr] = []
+            body = [b_ for b_ in g.node.body if not (isinstance(b_, ast.Expr) and isinstance(b_.value, ast.Constant))]
+            for st in body:
+                if isinstance(st, ast.Expr) and isinstance(st.value, ast.YieldFrom) and isinstance(st.value.value, ast.Attribute) and \
+                        isinstance(st.value.value.value, ast.Name) and st.value.value.value.id == gp:
+                    out.append(ast.Attribute(value=e.args[0], attr=st.value.value.attr, ctx=ast.Load()))
+                elif isinstance(st, ast.Return) and st.value is not None:
+                    inner = _container_exprs(ctx, g, st.value, depth + 1)
+                    if inner is None:
+                        return None
+                    out.extend(ast.Attribute(value=e.args[0], attr=x.attr, ctx=ast.Load()) if isinstance(x, ast.Attribute) and
+                               isinstance(x.value, ast.Name) and x.value.id == gp else x for x in inner)
+                elif isinstance(st, ast.For) and len(st.body) == 1 and isinstance(st.body[0], ast.Expr) and \
+                        isinstance(st.body[0].value, ast.YieldFrom) and isinstance(st.body[0].value.value, ast.Name) and \
+                        isinstance(st.target, ast.Name) and st.body[0].value.value.id == st.target.id:
+                    inner = _container_exprs(ctx, g, st.iter, depth + 1)
+                    if inner is None:
+                        return None
+                    out.extend(ast.Attribute(value=e.args[0], attr=x.attr, ctx=ast.Load()) if isinstance(x, ast.Attribute) and
+                               isinstance(x.value, ast.Name) and x.value.id == gp else x for x in inner)
+                else:
+                    return None
+            return out
+    return None
+
+
 def find_containers(ctx, fn_name: str):
-    """FileContents containers scanned by ast_view.<fn_name>: [(field name, element ClassInfo)]."""
+    """FileContents containers scanned by ast_view.<fn_name>: ([(field name, element ClassInfo)], the node that iterates)."""
     prog = ctx.prog
     fn = prog.func('ast_view', fn_name)
     fc = prog.cls('ast', 'FileContents')
     fields = prog.class_fields(fc)
-    out = []
-    defs = {}
+    cands = []
     for n in iter_own_nodes(fn.node):
-        if isinstance(n, ast.Assign) and len(n.targets) == 1 and isinstance(n.targets[0], ast.Name):
-            defs.setdefault(n.targets[0].id, []).append(n.value)
-
-    def parts(e):
-        """literal elements and non-literal remainders of a container-list expression (`[a, b] + extra`, hoisted local)"""
-        if isinstance(e, (ast.List, ast.Tuple)):
-            return list(e.elts), []
-        if isinstance(e, ast.BinOp) and isinstance(e.op, ast.Add):
-            l1, r1 = parts(e.left)
-            l2, r2 = parts(e.right)
-            return l1 + l2, r1 + r2
-        if isinstance(e, ast.Name) and len(defs.get(e.id, [])) == 1 and isinstance(defs[e.id][0], (ast.List, ast.Tuple, ast.BinOp)):
-            return parts(defs[e.id][0])
-        return [], [e]
-
-    lists = []
-    for n in iter_own_nodes(fn.node):
+        its = []
         if isinstance(n, ast.For):
-            lit_, rest = parts(n.iter)
-            if lit_ and all(isinstance(x, ast.Attribute) for x in lit_):
-                lists.append((n, lit_, rest))
-    if len(lists) != 1:
-        raise AnalysisError(f'{fn_name}: expected exactly one loop over a literal list of containers')
-    loop, elts, rest = lists[0]
-    for e in elts:
-        if not (isinstance(e, ast.Attribute) and e.attr in fields):
-            raise AnalysisError(f'{fn_name}: container `{ast.unparse(e)}` is not a FileContents field')
-        ann = fields[e.attr][0]
-        t = prog.ann_to_type(fc.module, ann, fc)
-        elem = prog.classes.get(t[1][1]) if t[0] == 'list' and t[1][0] == 'cls' else None
-        out.append((e.attr, elem))
-    for e in rest:
-        # further containers that are not FileContents fields (e.g. the nested types of every interface)
-        out.append((f'<{ast.unparse(e)[:40]}>', None))
-    lists = [loop]
-    return out, lists[0]
+            its.append(n.iter)
+        elif isinstance(n, ast.comprehension):
+            its.append(n.iter)
+        for it in its:
+            parts = _container_exprs(ctx, fn, it)
+            if parts and any(isinstance(x, ast.Attribute) and x.attr in fields for x in parts):
+                cands.append((n, parts))
+    if len(cands) != 1:
+        raise AnalysisError(f'{fn_name}: expected exactly one iteration over the FileContents containers ({len(cands)} found)')
+    node, parts = cands[0]
+    out = []
+    for e in parts:
+        if isinstance(e, ast.Attribute) and e.attr in fields:
+            ann = fields[e.attr][0]
+            t = prog.ann_to_type(fc.module, ann, fc)
+            elem = prog.classes.get(t[1][1]) if t[0] == 'list' and t[1][0] == 'cls' else None
+            out.append((e.attr, elem))
+        else:
+            # further containers that are not FileContents fields (e.g. the nested types of every interface)
+            out.append((f'<{ast.unparse(e)[:40]}>', None))
+    holder = node if isinstance(node, ast.For) else ast.For(target=node.target, iter=node.iter, body=[], orelse=[])
+    if not hasattr(holder, 'lineno'):
+        ast.copy_location(holder, node.iter)
+    return out, holder
 
 
 # ------------------------------------------------------------------------------------------------------------------
@@ -557,3 +605,68 @@ def to_list_views(ctx) -> Dict[str, FuncInfo]:
         out[label] = prog.add_synthetic(to_list, residual(prog, to_list, {}, assume=asm), f'mode-{label}')
     ctx._to_list_views = out
     return out
+
+
+# ------------------------------------------------------------------------------------------------------------------
+# how find_fqn matches a declaration against the candidates of the resolution order (C07.exact, C14.once)
+# ------------------------------------------------------------------------------------------------------------------
+def fqn_match_form(ctx, ff: FuncInfo) -> Tuple[Optional[bool], str, Optional[ast.AST]]:
+    """find_fqn written as a selection `[d for d in <declarations> if <match>]`: (ok, explanation, node) for the match:
+       `any(d.fqn == c for c in <order>)`                         whole-name equality with some candidate
+       `key(d.fqn) in {key(c) for c in <order>}`                  the same through an equality-preserving key (tuple of the items)
+    None when find_fqn is not such a selection (the loop form is judged by the callers)."""
+    prog = ctx.prog
+
+    def local(nm: str):
+        d = [a.value for a in iter_own_nodes(ff.node) if isinstance(a, ast.Assign) and len(a.targets) == 1
+             and isinstance(a.targets[0], ast.Name) and a.targets[0].id == nm]
+        return d[0] if len(d) == 1 else None
+
+    def is_order(e) -> bool:
+        if isinstance(e, ast.Name):
+            e = local(e.id)
+        return isinstance(e, ast.Call) and getattr(e.func, 'id', getattr(e.func, 'attr', '')) == 'scope_resolution_order'
+
+    def key_fn_ok(name: str) -> bool:
+        k = prog.try_func('ast_view', name) or prog.try_func('scoping', name)
+        if k is None or len(k.params()) != 1:
+            return False
+        p = k.params()[0].arg
+        rets = [r for r in iter_own_nodes(k.node) if isinstance(r, ast.Return)]
+        main = [r for r in rets if not (r.value is None or (isinstance(r.value, ast.Constant) and r.value.value is None))]
+        return len(main) == 1 and ast.unparse(main[0].value) == f'tuple({p}.items)'
+
+    comps = [n for n in iter_own_nodes(ff.node) if isinstance(n, (ast.ListComp, ast.GeneratorExp)) and len(n.generators) == 1
+             and isinstance(n.generators[0].target, ast.Name) and isinstance(n.elt, ast.Name)
+             and n.elt.id == n.generators[0].target.id and len(n.generators[0].ifs) == 1]
+    comps = [c for c in comps if _container_exprs(ctx, ff, c.generators[0].iter)]
+    if len(comps) != 1:
+        return None, '', None
+    c = comps[0]
+    d = c.generators[0].target.id
+    test = c.generators[0].ifs[0]
+    if isinstance(test, ast.Call) and getattr(test.func, 'id', '') == 'any' and len(test.args) == 1 and \
+            isinstance(test.args[0], (ast.GeneratorExp, ast.ListComp)) and len(test.args[0].generators) == 1:
+        g = test.args[0].generators[0]
+        cmp_ = test.args[0].elt
+        if is_order(g.iter) and not g.ifs and isinstance(g.target, ast.Name) and isinstance(cmp_, ast.Compare) and \
+                len(cmp_.ops) == 1 and isinstance(cmp_.ops[0], ast.Eq) and \
+                {ast.unparse(cmp_.left), ast.unparse(cmp_.comparators[0])} == {f'{d}.fqn', g.target.id}:
+            return True, 'a declaration is selected (once) when its fqn equals some candidate of the resolution order', test
+        return False, f'the match `{ast.unparse(test)[:60]}` is not whole-name equality with a candidate of the resolution order', test
+    if isinstance(test, ast.Compare) and len(test.ops) == 1 and isinstance(test.ops[0], ast.In) and \
+            isinstance(test.left, ast.Call) and len(test.left.args) == 1 and ast.unparse(test.left.args[0]) == f'{d}.fqn' and \
+            isinstance(test.left.func, ast.Name):
+        key = test.left.func.id
+        cands = test.comparators[0]
+        if isinstance(cands, ast.Name):
+            cands = local(cands.id)
+        ok_set = isinstance(cands, (ast.SetComp, ast.ListComp)) and len(cands.generators) == 1 and not cands.generators[0].ifs and \
+            is_order(cands.generators[0].iter) and isinstance(cands.elt, ast.Call) and getattr(cands.elt.func, 'id', '') == key and \
+            len(cands.elt.args) == 1 and isinstance(cands.generators[0].target, ast.Name) and \
+            ast.unparse(cands.elt.args[0]) == cands.generators[0].target.id
+        if ok_set and key_fn_ok(key):
+            return True, (f'a declaration is selected (once) when {key}(fqn) is among the {key}(candidate)s; {key} is the tuple '
+                          f'of the identifiers, equal exactly for equal names'), test
+        return False, f'the match `{ast.unparse(test)[:60]}` does not compare whole names through an equality-preserving key', test
+    return False, f'the match `{ast.unparse(test)[:60]}` is not recognised as whole-name equality', test
